@@ -59,7 +59,19 @@ func (e *SpecEnv) evalGoal(x SExpr) (Term, error) {
 	if err != nil {
 		return Term{}, err
 	}
-	return Imp(And(fs...), t), nil
+	return Imp(And(dedupTerms(fs)...), t), nil
+}
+
+func dedupTerms(ts []Term) []Term {
+	seen := map[string]bool{}
+	var out []Term
+	for _, t := range ts {
+		if !seen[t.S] {
+			seen[t.S] = true
+			out = append(out, t)
+		}
+	}
+	return out
 }
 
 func (e *SpecEnv) evalHyp(x SExpr) (Term, error) {
@@ -70,7 +82,7 @@ func (e *SpecEnv) evalHyp(x SExpr) (Term, error) {
 	if err != nil {
 		return Term{}, err
 	}
-	return And(append([]Term{t}, fs...)...), nil
+	return And(append([]Term{t}, dedupTerms(fs)...)...), nil
 }
 
 // noteRefs records typing facts for the reference-valued leaves of a value just read from the heap.
@@ -253,6 +265,7 @@ func (e *SpecEnv) eval(x SExpr) (SVal, error) {
 				*e.facts = append(*e.facts, f)
 			}
 		}
+		dep = dedupTerms(dep)
 		if len(dep) > 0 {
 			switch {
 			case n.Forall && e.pol > 0:
@@ -630,11 +643,16 @@ func (e *SpecEnv) callSpec(n SCall) (SVal, error) {
 		}
 		return SVal{V: Scalar{app(SByt, "bytes_content", ts...)}}, nil
 	case "int", "int8", "int16", "int32", "int64", "uint", "uint8", "uint16", "uint32", "uint64", "byte":
+		// Go conversion semantics: the value is reduced into the range of the target type
 		t, err := e.evalTerm(n.Args[0])
 		if err != nil {
 			return SVal{}, err
 		}
-		return SVal{V: Scalar{t}}, nil
+		bits := map[string]uint{"int": 64, "int8": 8, "int16": 16, "int32": 32, "int64": 64, "uint": 64, "uint8": 8, "uint16": 16, "uint32": 32, "uint64": 64, "byte": 8}[n.Fn]
+		if strings.HasPrefix(n.Fn, "int") {
+			return SVal{V: Scalar{WrapS(t, bits)}}, nil
+		}
+		return SVal{V: Scalar{WrapU(t, bits)}}, nil
 	case "wrap64":
 		t, err := e.evalTerm(n.Args[0])
 		if err != nil {
